@@ -20,7 +20,7 @@ func (c14) Name() string { return "c14" }
 func (c14) Rule() string {
 	return "full-server simulation over the wire: 8..45 client operations (didOpen/didChange/didSave/didClose/re-open, completion, hover, definition, references, rename, prepareRename, documentSymbol, workspace/symbol, formatting, foldingRange, documentLink, semanticTokens full/range/delta, inlineCompletion, Server.CodeAction through a debug method, didChangeConfiguration with the client answering workspace/configuration immediately, late or never, unknown notifications, requests on closed documents) on 1..4 journal-profile documents carrying version markers, with and without workspace root, hledger found or not (exec-ok), optional transport close; every go statement of the server is a task the simulator schedules under 7 policies with preemption at every lock, sync.Map, disk, clock, exec and client call. Invariants: no panic in any task, no deadlock, no livelock within 20000 steps, and in the -race build (same seeds, happens-before-invisible scheduling) no data-race report. Oracle: no marker of a superseded version of the requesting document in any response; sampled responses must equal, after canonical JSON, the response of a FRESH sequential reference server brought to the same client-visible state (same disk clone, same settings, didOpen of every open document in open order); while background work of the requesting document is still pending the answer may instead equal the cold reference (no analysis has run) or the lagging reference (analysis of the last published version has run, the latest change not yet). Non-trivial: >= 2 server tasks alive at once or a request answered while a task was pending. Distinct: schedule signature + operation kinds."
 }
-func (c14) Enumerated(string) int           { return 0 }
+func (c14) Enumerated(string) int            { return 0 }
 func (c14) Components() ([]string, []string) { return serverComponents() }
 
 func (c14) Run(ctx *RunCtx) {
@@ -125,6 +125,113 @@ func (c14) Run(ctx *RunCtx) {
 		}
 		return s
 	}
+	// request sends one feature request and judges the answer; echo=true marks a
+	// request that repeats the previous one after a state change (always compared)
+	var request func(op int, doc *JDoc, method string, params J, l, ch int, occ *Occ, echo bool)
+	request = func(op int, doc *JDoc, method string, params J, l, ch int, occ *Occ, echo bool) {
+		pendingBefore := d.LiveBg()
+		if d.Sess.InboundPending() || len(d.S.RunnableTasks()) > 0 {
+			// notifications the dispatcher has not even read yet will spawn tasks
+			pendingBefore++
+		}
+		pendingCfg := len(d.Sess.PendingServerRequests())
+		r := d.Call(method, params)
+		if r == nil {
+			if !d.Livelock && d.Deadlock == "" {
+				d.Quiesce()
+				if d.Deadlock != "" {
+					return
+				}
+				fail("liveness", "no-response", fmt.Sprintf("%s on d%d was not answered", method, doc.No), nil)
+			}
+			return
+		}
+		scanOut()
+		got := CanonResponse(r.Result, r.Error)
+		what := ""
+		if occ != nil {
+			what = occ.Kind + " " + occ.Name
+		}
+		ctx.T("op%d %s d%d @%d:%d (%s) pending-tasks=%d -> %s", op, method, doc.No, l, ch, what, pendingBefore, trunc(got, 140))
+		kinds = append(kinds, strings.TrimPrefix(method, "textDocument/"))
+		if pendingBefore > 0 {
+			answeredWhilePending++
+		}
+		// marker oracle: nothing of an older version of the requesting document
+		for _, m := range markerRe.FindAllStringSubmatch(got, -1) {
+			dn, _ := strconv.Atoi(m[1])
+			vn, _ := strconv.Atoi(m[2])
+			if dn == doc.No && vn < doc.Marker {
+				fail("no-older-version", "stale-"+strings.TrimPrefix(method, "textDocument/"),
+					fmt.Sprintf("%s on d%d (at v%d) answered with content of its version %d", method, doc.No, doc.Marker, vn), nil)
+				return
+			}
+		}
+		// the choice is drawn in both builds so that one seed is one schedule in
+		// the plain and in the -race binary
+		doCompare := c.Pct("compare", 45)
+		if failed || ctx.Race || !(doCompare || echo) {
+			return
+		}
+		if echo {
+			ctx.Stats.Inc("probe:request-repeated-after-a-state-change")
+		}
+		// ---- differential oracle
+		quiescent := pendingBefore == 0 && pendingCfg == 0
+		ref := StartRef(ctx, spec(false, nil, 0))
+		want := ref.Ask(method, params)
+		ref.Close()
+		compared++
+		verdict := got == want
+		tried := []string{"fresh"}
+		if !verdict && !quiescent {
+			cr := StartRef(ctx, spec(true, nil, 0))
+			wc := cr.Ask(method, params)
+			cr.Close()
+			comparedCold++
+			tried = append(tried, "cold")
+			if got == wc {
+				verdict = true
+				ctx.Stats.Inc("probe:answer-equals-cold-reference")
+			}
+			if !verdict {
+				// lagging: for each open document whose last published version is older
+				for _, od := range w.OpenDocs() {
+					lp, ok := lastPublished[od.URI]
+					if !ok || lp >= od.Marker || od.Versions[lp] == "" {
+						continue
+					}
+					lr := StartRef(ctx, spec(false, od, lp))
+					wl := lr.Ask(method, params)
+					lr.Close()
+					comparedLag++
+					tried = append(tried, fmt.Sprintf("lagging(d%d@v%d)", od.No, lp))
+					if got == wl {
+						verdict = true
+						ctx.Stats.Inc("probe:answer-equals-lagging-reference")
+						break
+					}
+				}
+			}
+		}
+		d.Resume()
+		if !verdict {
+			cls := "differs-" + strings.TrimPrefix(method, "textDocument/")
+			if quiescent {
+				cls = "quiescent-" + cls
+			}
+			fail("fresh-reference", cls, fmt.Sprintf("%s on d%d: response differs from every reference (%s). server: %s  fresh reference: %s", method, doc.No, strings.Join(tried, ", "), trunc(diffHint(got, want), 500), trunc(diffHint(want, got), 500)),
+				map[string]any{"method": method, "quiescent": quiescent, "workspace": workspace, "got": got, "want": want})
+		}
+	}
+	type echoReq struct {
+		doc    *JDoc
+		method string
+		params J
+		l, ch  int
+		occ    *Occ
+	}
+	var lastReq *echoReq
 	nops := c.Range("nops", 8, 45)
 	for op := 0; op < nops && !failed && !closed && !d.Livelock; op++ {
 		doc := w.Docs[c.Choose("doc", len(w.Docs))]
@@ -226,106 +333,27 @@ func (c14) Run(ctx *RunCtx) {
 				method, params = "textDocument/semanticTokens/range", J{"textDocument": docID(doc.URI), "range": rng(0, 0, 1+c.Choose("range-lines", len(doc.Lines)), 0)}
 			case 14:
 				// ghost text on the empty line after the header being typed
-				method, params = "textDocument/inlineCompletion", J{"textDocument": docID(doc.URI), "position": pos(doc.GhostLine(), 0)}
+				gl := doc.GhostLines()
+				method, params = "textDocument/inlineCompletion", J{"textDocument": docID(doc.URI), "position": pos(gl[c.Choose("ghost", len(gl))], 0)}
 			case 15:
 				// Server.CodeAction reads the settings and the CLI client that
 				// configuration refreshes replace
 				method, params = "verif/codeAction", J{"textDocument": docID(doc.URI), "range": rng(l, 0, l, 0), "context": J{"diagnostics": []any{}}}
 			}
-			pendingBefore := d.LiveBg()
-			if d.Sess.InboundPending() || len(d.S.RunnableTasks()) > 0 {
-				// notifications the dispatcher has not even read yet will spawn tasks
-				pendingBefore++
-			}
-			pendingCfg := len(d.Sess.PendingServerRequests())
-			r := d.Call(method, params)
-			if r == nil {
-				if !d.Livelock && d.Deadlock == "" {
-					d.Quiesce()
-					if d.Deadlock != "" {
-						break
-					}
-					fail("liveness", "no-response", fmt.Sprintf("%s on d%d was not answered", method, doc.No), nil)
-				}
-				break
-			}
-			scanOut()
-			got := CanonResponse(r.Result, r.Error)
-			what := ""
-			if occ != nil {
-				what = occ.Kind + " " + occ.Name
-			}
-			ctx.T("op%d %s d%d @%d:%d (%s) pending-tasks=%d -> %s", op, method, doc.No, l, ch, what, pendingBefore, trunc(got, 140))
-			kinds = append(kinds, strings.TrimPrefix(method, "textDocument/"))
-			if pendingBefore > 0 {
-				answeredWhilePending++
-			}
-			// marker oracle: nothing of an older version of the requesting document
-			for _, m := range markerRe.FindAllStringSubmatch(got, -1) {
-				dn, _ := strconv.Atoi(m[1])
-				vn, _ := strconv.Atoi(m[2])
-				if dn == doc.No && vn < doc.Marker {
-					fail("no-older-version", "stale-"+strings.TrimPrefix(method, "textDocument/"),
-						fmt.Sprintf("%s on d%d (at v%d) answered with content of its version %d", method, doc.No, doc.Marker, vn), nil)
-					break
-				}
-			}
-			// the choice is drawn in both builds so that one seed is one schedule in
-			// the plain and in the -race binary
-			doCompare := c.Pct("compare", 45)
-			if failed || ctx.Race || !doCompare {
-				break
-			}
-			// ---- differential oracle
-			quiescent := pendingBefore == 0 && pendingCfg == 0
-			ref := StartRef(ctx, spec(false, nil, 0))
-			want := ref.Ask(method, params)
-			ref.Close()
-			compared++
-			verdict := got == want
-			tried := []string{"fresh"}
-			if !verdict && !quiescent {
-				cr := StartRef(ctx, spec(true, nil, 0))
-				wc := cr.Ask(method, params)
-				cr.Close()
-				comparedCold++
-				tried = append(tried, "cold")
-				if got == wc {
-					verdict = true
-					ctx.Stats.Inc("probe:answer-equals-cold-reference")
-				}
-				if !verdict {
-					// lagging: for each open document whose last published version is older
-					for _, od := range w.OpenDocs() {
-						lp, ok := lastPublished[od.URI]
-						if !ok || lp >= od.Marker || od.Versions[lp] == "" {
-							continue
-						}
-						lr := StartRef(ctx, spec(false, od, lp))
-						wl := lr.Ask(method, params)
-						lr.Close()
-						comparedLag++
-						tried = append(tried, fmt.Sprintf("lagging(d%d@v%d)", od.No, lp))
-						if got == wl {
-							verdict = true
-							ctx.Stats.Inc("probe:answer-equals-lagging-reference")
-							break
-						}
-					}
-				}
-			}
-			d.Resume()
-			if !verdict {
-				cls := "differs-" + strings.TrimPrefix(method, "textDocument/")
-				if quiescent {
-					cls = "quiescent-" + cls
-				}
-				fail("fresh-reference", cls, fmt.Sprintf("%s on d%d: response differs from every reference (%s). server: %s  fresh reference: %s", method, doc.No, strings.Join(tried, ", "), trunc(diffHint(got, want), 500), trunc(diffHint(want, got), 500)),
-					map[string]any{"method": method, "quiescent": quiescent, "workspace": workspace, "got": got, "want": want})
-			}
+			request(op, doc, method, params, l, ch, occ, false)
+			lastReq = &echoReq{doc, method, params, l, ch, occ}
 		}
 		if closed {
 			break
+		}
+		// the same request again after a state change: whatever the server cached
+		// for the first answer must not survive the change
+		if kind != 3 && lastReq != nil && lastReq.doc.Open && !failed && c.Pct("echo-request", 35) {
+			if c.Bool("echo-at-quiescence") {
+				answerConfig(true)
+				d.Quiesce()
+			}
+			request(op, lastReq.doc, lastReq.method, lastReq.params, lastReq.l, lastReq.ch, lastReq.occ, true)
 		}
 		answerConfig(false)
 		d.PumpN(c.Choose("steps-between", 14))
